@@ -42,14 +42,15 @@ class StaticViolation(AnalysisError):
 
 
 def _returned_inner(fn: ast.FunctionDef) -> Optional[ast.FunctionDef]:
-    inner = [n for n in fn.body if isinstance(n, (ast.FunctionDef,))]
+    """the nested function every return of fn hands out (other nested helpers may sit next to it)"""
+    inner = {n.name: n for n in fn.body if isinstance(n, (ast.FunctionDef,))}
     rets = [n for n in ast.walk(fn) if isinstance(n, ast.Return) and _owner_is(fn, n)]
-    if len(inner) != 1 or not rets:
+    if not inner or not rets:
         return None
-    for r in rets:
-        if not (isinstance(r.value, ast.Name) and r.value.id == inner[0].name):
-            return None
-    return inner[0]
+    names = {r.value.id if isinstance(r.value, ast.Name) else None for r in rets}
+    if len(names) != 1 or None in names or names.copy().pop() not in inner:
+        return None
+    return inner[names.pop()]
 
 
 def _owner_is(fn: ast.FunctionDef, node: ast.AST) -> bool:
@@ -115,7 +116,29 @@ def _is_warnings_call(p: Program, mod, e: ast.expr) -> bool:
     return isinstance(r, Ext) and r.dotted.startswith("warnings.")
 
 
-def _classify_wrapper(p: Program, mod, wrapper: ast.FunctionDef, func_name: str) -> Tuple[str, str]:
+def _warnings_only_ctx(p: Program, mod, fn: ast.FunctionDef) -> bool:
+    """a nested @contextmanager whose body only arranges warnings filters around its yield"""
+    if not any(ast.unparse(d).endswith("contextmanager") for d in fn.decorator_list):
+        return False
+
+    def ok(stmts):
+        for s in stmts:
+            if isinstance(s, ast.Expr) and (isinstance(s.value, (ast.Constant, ast.Yield)) or _is_warnings_call(p, mod, s.value)):
+                if isinstance(s.value, ast.Yield) and s.value.value is not None:
+                    return False
+                continue
+            if isinstance(s, ast.With) and all(_is_warnings_call(p, mod, it.context_expr) for it in s.items) and ok(s.body):
+                continue
+            if isinstance(s, ast.Try) and not s.handlers and ok(s.body) and ok(s.finalbody):
+                continue
+            return False
+        return True
+
+    return ok(fn.body)
+
+
+def _classify_wrapper(p: Program, mod, wrapper: ast.FunctionDef, func_name: str, siblings=None) -> Tuple[str, str]:
+    siblings = siblings or {}
     if _all_paths_raise(wrapper.body):
         return "raises", "every path of the wrapper raises"
     calls = [n for n in _own_nodes(wrapper) if isinstance(n, ast.Call) and isinstance(n.func, ast.Name) and n.func.id == func_name]
@@ -129,7 +152,11 @@ def _classify_wrapper(p: Program, mod, wrapper: ast.FunctionDef, func_name: str)
         for s in stmts:
             if isinstance(s, ast.Expr) and (isinstance(s.value, ast.Constant) or _is_warnings_call(p, mod, s.value)):
                 continue
-            if isinstance(s, ast.With) and all(_is_warnings_call(p, mod, it.context_expr) for it in s.items):
+            if isinstance(s, ast.With) and all(
+                    _is_warnings_call(p, mod, it.context_expr)
+                    or (isinstance(it.context_expr, ast.Call) and isinstance(it.context_expr.func, ast.Name) and not it.context_expr.args
+                        and it.context_expr.func.id in siblings and _warnings_only_ctx(p, mod, siblings[it.context_expr.func.id]))
+                    for it in s.items):
                 if not simple(s.body):
                     return False
                 continue
@@ -205,6 +232,11 @@ def classify(p: Program, fi: FuncInfo) -> List[Tuple[str, str, str]]:
             else:
                 out.append(("opaque", text, "decorator %s does not return a single inner function" % dv.qualname))
             continue
-        kind, detail = _classify_wrapper(p, dv.module, wrapper, params[0])
+        sibs = {}
+        for scope in (dv.node, layer):
+            for n in scope.body:
+                if isinstance(n, ast.FunctionDef) and n is not wrapper:
+                    sibs[n.name] = n
+        kind, detail = _classify_wrapper(p, dv.module, wrapper, params[0], sibs)
         out.append((kind, text, "%s:%d %s" % (dv.module.relpath, wrapper.lineno, detail) if detail else ""))
     return out
